@@ -1,5 +1,6 @@
 import VelaVerif.Model.PassPacking
 import VelaVerif.Spec.PassPacking
+import VelaVerif.Model.SliceRead
 import VelaVerif.Handlers.Util
 /-!
 Pass packing (C01 / C16 / C11): the model of `pack_into_passes` against the real function, and the Spec clauses on real pass lists.
@@ -13,6 +14,9 @@ Pass packing (C01 / C16 / C11): the model of `pack_into_passes` against the real
 `packspec <graph> passes=<pass>;…`  the Spec clauses on a pass list in the answer format of `packmodel` (the REAL `sg.passes`):
   answer `wf=<0|1> a=<0|1> b=<0|1> c=<0|1> d=<0|1> badshape=<pass indices> badact=<pass indices>`
   (a partition, b topological order, c pass shape / fused edges, d one activation function per pass)
+`slicefold s=<ifmShape>,<ofmShape>,<ofmTensorShape>,<readOffset>,<readShape> cons=<c>;…`  the model of `remove_SplitSliceRead`:
+  consumer = `none,npu,memonly,mul,memcpy,transpose,binary,ifmIsSlice,ifm2IsSlice,ifmShapes,ofmShapes,ro0,ro1,rs0,rs1`
+  answer `fold=1 <ro0,ro1,rs0,rs1,ifmShapes>;…` (the consumers afterwards), `fold=0` (a 1x1 average pool does the read) or `err:index`
 -/
 namespace VelaVerif.Handlers.PassPacking
 open VelaVerif VelaVerif.Handlers VelaVerif.PassPacking VelaVerif.PassPackingSpec
@@ -76,7 +80,43 @@ def parseSPass (s : String) : Option SPass :=
 def idxWhere (l : List SPass) (f : SPass → Bool) : List Nat :=
   (List.range l.length).filter fun i => match l[i]? with | some p => f p | none => false
 
+def parseOptShape (s : String) : Option (Option Shape) := if s == "n" then some none else (parseShape s).map some
+
+def parseConsumer (s : String) : Option SliceRead.Consumer :=
+  match s.splitOn "," with
+  | [nn, npu, mo, mul, mc, tr, bin, i1, i2, ifs, ofs, ro0, ro1, rs0, rs1] => do
+    some { isNone := ← parseBool nn, runOnNpu := ← parseBool npu, memoryOnly := ← parseBool mo, isMul := ← parseBool mul,
+           isMemcpy := ← parseBool mc, origTranspose := ← parseBool tr, binaryEw := ← parseBool bin,
+           ifmIsSlice := ← parseBool i1, ifm2IsSlice := ← parseBool i2,
+           ifmShapes := ← (splitNE ifs "/").mapM parseShape, ofmShapes := ← (splitNE ofs "/").mapM parseShape,
+           readOffsets := (← parseOptShape ro0, ← parseOptShape ro1), readShapes := (← parseOptShape rs0, ← parseOptShape rs1) }
+  | _ => none
+
+def showOptShape : Option Shape → String
+  | none => "n"
+  | some s => showShape s
+
+def showConsumer (c : SliceRead.Consumer) : String :=
+  ",".intercalate [showOptShape c.readOffsets.1, showOptShape c.readOffsets.2, showOptShape c.readShapes.1, showOptShape c.readShapes.2,
+    "/".intercalate (c.ifmShapes.map showShape)]
+
+def handleSlice (toks : List String) : Option String := do
+  let sl ← match ((kv toks "s").getD "").splitOn "," with
+    | [a, b, c, d, e] => do
+      some ({ ifmShape := ← parseShape a, ofmShape := ← parseShape b, ofmTensorShape := ← parseShape c, readOffset := ← parseShape d,
+              readShape := ← parseShape e } : SliceRead.Slice)
+    | _ => none
+  let cs ← (splitNE ((kv toks "cons").getD "") ";").mapM parseConsumer
+  match SliceRead.folds SliceRead.Rules.current sl cs with
+  | none => some "err:index"
+  | some false => some "fold=0"
+  | some true =>
+    match cs.mapM (SliceRead.moveToConsumer SliceRead.Rules.current sl) with
+    | none => some "err:index"
+    | some cs' => some ("fold=1 " ++ ";".intercalate (cs'.map showConsumer))
+
 def handle : List String → Option String
+  | "slicefold" :: toks => some ((handleSlice toks).getD "err:parse")
   | "packspec" :: toks =>
     match parseGraph toks, (splitNE ((kv toks "passes").getD "") ";").mapM parseSPass with
     | some G, some ps =>
